@@ -20,7 +20,6 @@ NA_PURE = {
 }
 
 PENDING = {
- "C07": "check under construction (claimed in DESIGN.md §4: decoder storage/stream fault enumeration); not registered until it runs end to end",
  "C18": "check under construction (claimed in DESIGN.md §3: token-passing scheduler over the real extract goroutines); not registered until it runs end to end",
 }
 
@@ -41,6 +40,10 @@ CHECKS = {
    text="Seeded search over histories of 2-4 interleaved simulated clients building and calling transformers over a shared pool of spatial references (registry names = shared pointers, 3-/7-parameter datums needing the WGS84 hop, non-default axis orders, +pm, +units, +nadgrids), each call compared bit-for-bit with a fresh world (same definitions parsed anew, new transformer, single call), canary transformations over the process-global registry re-evaluated after every run; Geom.Transform on all eight geometry types with a stub transformer wrapped by a fault injector failing on a tape-chosen vertex: same type/nesting, vertex i = t(vertex i), input untouched, nil = identity, the transformer's error returned, no panic.",
    note="Trusted: the fresh-world oracle runs the same real code (so it cannot see errors that are history-independent - those are C08/C09/C20 territory); pool members are distinct catalogue entries (two separately parsed copies of one definition flip between the Equal shortcut and inverse-forward after use, a 1e-7 m effect the property does not state); panics inside NewTransform itself are outside the statement and only counted; transformers are interleaved, never run in parallel.",
    technique="deterministic simulation: seeded interleaved client histories vs fresh-world reference, error injection through the Transformer seam, tape-minimised replay"),
+ "C07": dict(engine="sim-store", cat="fault_enumeration", ref="DESIGN.md §4",
+   text="Per stored item (tape-generated geometry serialised by an independent writer that knows every field offset; its hex and GeoJSON forms; geojson.Geometry values with arbitrarily shaped coordinates; adversarial frames up to the 64 KiB bound; random strings) the storage-fault set is ENUMERATED: truncation at every offset, every single-bit flip of small items and of all header/count/type bytes of large ones, every count field overwritten with 13 values up to 2^32-1, every byte-order byte with all 256 values, every type code with 40 codes, zeroed tails, block splices; and for the io.Reader entry point an I/O error and an early EOF at every offset under several chunking schedules incl. (0,nil) and (n,EOF) reads. Every decode runs under an allocation meter (<=1024*len+4MiB), panic capture, result-shape and re-encode/decode oracles; legal reader schedules must not change the result. Items and sampled multi-fault combinations come from the seed; the per-item fault set is exhaustive as stated, the item space is sampled.",
+   note="Trusted: the independent serializer/layout, the allocation meter (runtime/metrics, single goroutine), the NaN-aware equality. Workers run under ulimit -v 4 GiB; an unsurvivable allocation kills the worker and is attributed to the journalled run (class process-crash, seed-only replay). Success on truncated/error-interrupted input is only counted: the statement demands a geometry or an error, not rejection. Failing allocations/syscalls inside the Go runtime cannot be injected.",
+   technique="deterministic simulation of a faulty store/stream: enumerated storage and reader faults per seeded item, allocation meter, tape-minimised replay"),
 }
 
 HOOK_COMMITS = ["d39f006", "035e079"]
